@@ -178,16 +178,67 @@ func valueBytes(bs []byte) []value {
 
 // ufHash models a hash of a byte sequence with symbolic bytes as an uninterpreted function of the bytes
 // (one function symbol per length): equal inputs give equal hashes, nothing else is assumed.
+// ufPoint is a concrete evaluation of a hash function on this path; ufApp a symbolic application. The two are tied
+// together by instances of the function's graph: (args = bytes) => uf(args) = native value, so that a value hashed
+// through the symbolic route and the same value hashed concretely land in the same bucket.
+type ufPoint struct {
+	bytes []byte
+	val   *big.Int
+}
+
+func (i *interpreter) ufLink(app *expr, args []*expr, pt ufPoint) {
+	cond := exTrue
+	for n, a := range args {
+		c := mkEq(a, mkInt64(int64(pt.bytes[n])))
+		if c.op == "b" && !c.bval {
+			return
+		}
+		cond = mkAnd(cond, c)
+	}
+	i.ctx.assume(mkImplies(cond, mkEq(app, mkInt(pt.val))))
+}
+
 func (i *interpreter) ufHash(name string, bs []value, bits int, k types.BasicKind) value {
 	args := make([]*expr, len(bs))
 	for n, b := range bs {
 		args[n] = exprOf(b)
 	}
-	e := &expr{op: "uf", sort: sInt, name: fmt.Sprintf("%s_%d", name, len(bs)), args: args, size: len(args) + 1}
+	key := fmt.Sprintf("%s_%d", name, len(bs))
+	e := &expr{op: "uf", sort: sInt, name: key, args: args, size: len(args) + 1}
 	e.lo, e.hi, e.bdone = big.NewInt(0), new(big.Int).Sub(pow2(bits), big.NewInt(1)), true
 	i.ctx.assume(mkAnd(mkGe(e, mkInt64(0)), mkLe(e, mkInt(e.hi))))
-	i.ex.noteAssumption("hash of symbolic bytes is an uninterpreted function (collisions allowed, equal inputs equal)")
+	i.ex.noteAssumption("hash of symbolic bytes is an uninterpreted function (collisions allowed, equal inputs equal, concrete evaluations on the same path pinned to the real checksum)")
+	c := i.ctx
+	if c.ufApps == nil {
+		c.ufApps = map[string][]*expr{}
+	}
+	for _, pt := range c.ufPoints[key] {
+		i.ufLink(e, args, pt)
+	}
+	c.ufApps[key] = append(c.ufApps[key], e)
 	return mkIntVal(k, e)
+}
+
+// ufConcrete records a native hash evaluation so that symbolic applications agree with it.
+func (i *interpreter) ufConcrete(name string, bs []byte, val uint64) {
+	c := i.ctx
+	if c == nil {
+		return
+	}
+	key := fmt.Sprintf("%s_%d", name, len(bs))
+	for _, p := range c.ufPoints[key] {
+		if string(p.bytes) == string(bs) {
+			return
+		}
+	}
+	if c.ufPoints == nil {
+		c.ufPoints = map[string][]ufPoint{}
+	}
+	pt := ufPoint{append([]byte(nil), bs...), new(big.Int).SetUint64(val)}
+	c.ufPoints[key] = append(c.ufPoints[key], pt)
+	for _, app := range c.ufApps[key] {
+		i.ufLink(app, app.args, pt)
+	}
 }
 
 func (i *interpreter) sortValues(fr *frame, xs []value, less func(a, b value) bool) {
@@ -375,7 +426,10 @@ func init() {
 			if symBytes(bs) {
 				return fr.i.ufHash("crc32", bs, 32, types.Uint32)
 			}
-			return crc32.ChecksumIEEE(nativeBytes(bs))
+			nb := nativeBytes(bs)
+			h := crc32.ChecksumIEEE(nb)
+			fr.i.ufConcrete("crc32", nb, uint64(h))
+			return h
 		},
 		"hash/crc64.MakeTable": func(fr *frame, args []value) value {
 			// tables are opaque: remember the polynomial
@@ -395,7 +449,10 @@ func init() {
 			if symBytes(bs) {
 				return fr.i.ufHash("crc64", bs, 64, types.Uint64)
 			}
-			return crc64.Checksum(nativeBytes(bs), crc64.MakeTable(poly))
+			nb := nativeBytes(bs)
+			h := crc64.Checksum(nb, crc64.MakeTable(poly))
+			fr.i.ufConcrete("crc64", nb, h)
+			return h
 		},
 
 		// ---- unicode normalisation and segmentation ----
